@@ -416,7 +416,7 @@ def run_model_coqc(prop_id, header, terms, ints_per_case, shard_size=400, timeou
     return [x for p in parts for x in p]
 
 
-def run_isolating(cmd, lines, timeout=3000, single_timeout=60):
+def run_isolating(cmd, lines, timeout=600, single_timeout=60):
     """like run_sharded, but every case whose shard died is re-run alone, so that a crash is attributed to its input"""
     out = run_sharded(cmd, lines, timeout=timeout)
     died = [i for i, l in enumerate(out) if l is None or l.startswith('DIED')]
